@@ -2,6 +2,7 @@ package sim
 
 import (
 	"fmt"
+	"math/big"
 	"strings"
 
 	sdkmath "cosmossdk.io/math"
@@ -22,6 +23,11 @@ type c17Snap struct {
 	stakers    sdk.DecCoins
 	outstanding sdk.DecCoins
 	perVal     map[string]sdk.DecCoins // validator outstanding
+	perValComm map[string]sdk.DecCoins // validator accumulated commission
+	valPower   map[string]int64        // operator -> power in the stored validator set
+	rate       map[string]sdkmath.LegacyDec
+	totalPower int64
+	tax        sdkmath.LegacyDec
 }
 
 type c17Monitor struct {
@@ -32,6 +38,7 @@ type c17Monitor struct {
 	Distrs    int
 	NonZero   int
 	ZeroPower int
+	PerValChecked int
 	stakerIDs map[string]bool
 }
 
@@ -39,7 +46,17 @@ func (m *c17Monitor) Name() string { return "supply-and-fees" }
 
 func (m *c17Monitor) snap(r *Run, ctx sdk.Context) *c17Snap {
 	app := r.Node.App
-	s := &c17Snap{perVal: map[string]sdk.DecCoins{}}
+	s := &c17Snap{perVal: map[string]sdk.DecCoins{}, perValComm: map[string]sdk.DecCoins{}, valPower: map[string]int64{}, rate: map[string]sdkmath.LegacyDec{}}
+	s.totalPower = app.StakingKeeper.GetLastTotalPower(ctx).Int64()
+	s.tax = sdkmath.LegacyZeroDec()
+	if t, err := app.DistrKeeper.GetCommunityTax(ctx); err == nil {
+		s.tax = t
+	}
+	for _, v := range app.StakingKeeper.GetAllExocoreValidators(ctx) {
+		if found, acc := app.OperatorKeeper.GetOperatorAddressForChainIDAndConsAddr(ctx, r.W.ChainIDNoRev, sdk.ConsAddress(v.Address)); found {
+			s.valPower[acc.String()] += v.Power
+		}
+	}
 	s.supply = app.BankKeeper.GetSupply(ctx, m.denom).Amount
 	s.feeColl = app.BankKeeper.GetBalance(ctx, authtypes.NewModuleAddress(authtypes.FeeCollectorName), m.denom).Amount
 	s.distrBal = app.BankKeeper.GetBalance(ctx, authtypes.NewModuleAddress(distrtypes.ModuleName), m.denom).Amount
@@ -48,7 +65,12 @@ func (m *c17Monitor) snap(r *Run, ctx sdk.Context) *c17Snap {
 	}
 	for _, o := range r.W.Ops {
 		va := sdk.ValAddress(o.Addr)
-		s.commission = s.commission.Add(app.DistrKeeper.GetValidatorAccumulatedCommission(ctx, va).Commission...)
+		comm := app.DistrKeeper.GetValidatorAccumulatedCommission(ctx, va).Commission
+		s.commission = s.commission.Add(comm...)
+		s.perValComm[o.Addr.String()] = comm
+		if info, err := app.OperatorKeeper.OperatorInfo(ctx, o.Addr.String()); err == nil && info != nil {
+			s.rate[o.Addr.String()] = info.Commission.Rate
+		}
 		out := app.DistrKeeper.GetValidatorOutstandingRewards(ctx, va).Rewards
 		s.outstanding = s.outstanding.Add(out...)
 		s.perVal[o.Addr.String()] = out
@@ -167,6 +189,39 @@ func (m *c17Monitor) AfterBeginBlock(r *Run, ctx sdk.Context) {
 		r.Violate(m.Name(), "booked-claims-add-up-to-amount-moved", "negative-booking", fmt.Sprintf("height %d: community %s commissions %s stakers %s", h, dCommunity, dCommission, dStakers))
 		return
 	}
+	// each validator's portion is proportional to its voting power and split by its commission rate
+	if distributed && moved.IsPositive() && m.prev.totalPower > 0 && r.Viol == nil {
+		F := new(big.Rat).SetInt(moved.BigInt())
+		oneMinusTax := new(big.Rat).Sub(big.NewRat(1, 1), ratOf(m.prev.tax))
+		tol := new(big.Rat).Mul(F, big.NewRat(4, 1)) // a few 1e-18 truncations of numbers up to F
+		tol.Add(tol, big.NewRat(4, 1))
+		tol.Quo(tol, new(big.Rat).SetInt(ten18))
+		for _, o := range r.W.Ops {
+			a := o.Addr.String()
+			portion := ratOf(decAmt(cur.perVal[a], m.denom).Sub(decAmt(m.prev.perVal[a], m.denom)))
+			comm := ratOf(decAmt(cur.perValComm[a], m.denom).Sub(decAmt(m.prev.perValComm[a], m.denom)))
+			pw := m.prev.valPower[a]
+			if portion.Sign() == 0 && comm.Sign() == 0 {
+				continue // a validator the distribution skipped (or without power) gets nothing; its share stays in the community pool
+			}
+			want := new(big.Rat).Mul(F, oneMinusTax)
+			want.Mul(want, big.NewRat(pw, m.prev.totalPower))
+			if d := new(big.Rat).Sub(portion, want); d.Abs(d).Cmp(tol) > 0 {
+				r.Violate(m.Name(), "validator-portion-proportional-to-voting-power", "portion", fmt.Sprintf("height %d: validator %s (power %d of %d, tax %s) was allocated %s of the %s moved, proportional share %s", h, a, pw, m.prev.totalPower, m.prev.tax, portion.FloatString(18), moved, want.FloatString(18)))
+				return
+			}
+			rate, ok := m.prev.rate[a]
+			if !ok {
+				continue
+			}
+			wantComm := new(big.Rat).Mul(portion, ratOf(rate))
+			if d := new(big.Rat).Sub(comm, wantComm); d.Abs(d).Cmp(tol) > 0 {
+				r.Violate(m.Name(), "validator-portion-split-by-commission-rate", "commission", fmt.Sprintf("height %d: validator %s with commission rate %s was allocated %s and booked commission %s, expected %s", h, a, rate, portion.FloatString(18), comm.FloatString(18), wantComm.FloatString(18)))
+				return
+			}
+			m.PerValChecked++
+		}
+	}
 	m.claimsWithinBalance(r, cur, fmt.Sprintf("height %d begin-block", h))
 	m.prev = cur
 }
@@ -197,7 +252,7 @@ func (m *c17Monitor) AfterEndBlock(r *Run, ctx sdk.Context, _ abci.ResponseEndBl
 func init() {
 	Register(&PropSpec{
 		ID: "C17", Level: "exploration",
-		Rule: "C01 workload (every cosmos and EVM transaction pays fees at random gas prices) with validator sets of 1-5, commission rates {0, 1%, 50%, 100%}, community tax {0, 2%, 50%, 100%}, epoch reward {0, 1, 1e18, 1.2e20}, mint and distribution identifiers equal or different, several stakers per operator, downtime (zero-power epochs), multi-epoch time jumps; after every BeginBlock/tx/EndBlock: supply changes only by the epoch reward at a mint-epoch end; at a distribution-epoch end the whole fee-collector balance moves to the distribution account and delta(community pool + commissions + staker rewards) equals it; booked claims never exceed the distribution account; non-trivial = >= 2 distributions of a non-zero amount and >= 1 mint",
+		Rule: "C01 workload (every cosmos and EVM transaction pays fees at random gas prices) with validator sets of 1-5, commission rates {0, 1%, 50%, 100%}, community tax {0, 2%, 50%, 100%}, epoch reward {0, 1, 1e18, 1.2e20}, mint and distribution identifiers equal or different, several stakers per operator, downtime (zero-power epochs), multi-epoch time jumps; after every BeginBlock/tx/EndBlock: supply changes only by the epoch reward at a mint-epoch end; at a distribution-epoch end the whole fee-collector balance moves to the distribution account and delta(community pool + commissions + staker rewards) equals it; every validator that is allocated something gets F x (1 - tax) x power / total power (powers of the set stored before the block, exact rationals, tolerance of a few 1e-18 truncations) and books portion x commission rate as commission; booked claims never exceed the distribution account; non-trivial = >= 2 distributions of a non-zero amount and >= 1 mint",
 		Assumptions: ledgerAssumptions,
 		QuickRuns:   500, ThoroughRuns: 8000,
 		GenConfig: func(p *PRNG, tier string) Config {
